@@ -1,0 +1,60 @@
+//go:build verif
+
+// Accessors for the /verif checks C11/C12 (add-only, compiled only with -tags verif).
+// They expose the unexported key-permission predicates on a real *executor environment so
+// that a harness outside the package can evaluate them on generated (key, execer) pairs.
+package executor
+
+import (
+	"github.com/33cn/chain33/client"
+	"github.com/33cn/chain33/queue"
+	"github.com/33cn/chain33/types"
+)
+
+// VerifNewExecutor builds an Executor bound to q without starting the receive loop
+// (same wiring as the in-package tests' initEnv; no main-chain grpc client for para configs).
+func VerifNewExecutor(cfg *types.Chain33Config, q queue.Queue) *Executor {
+	exec := New(cfg)
+	exec.client = q.Client()
+	exec.qclient, _ = client.New(exec.client, nil)
+	return exec
+}
+
+// VerifEnv is one block-execution environment (the unexported executor struct).
+type VerifEnv struct{ e *executor }
+
+// VerifNewEnv creates the per-block environment at the given height (no state hash, no localdb).
+func VerifNewEnv(exec *Executor, height int64) *VerifEnv {
+	ctx := &executorCtx{height: height, blocktime: 1, difficulty: 1}
+	return &VerifEnv{e: newExecutor(ctx, exec, nil, nil, nil)}
+}
+
+// IsAllowKeyWrite calls isAllowKeyWrite with an explicit realExecer.
+func (v *VerifEnv) IsAllowKeyWrite(key, realExecer []byte, tx *types.Transaction, index int) bool {
+	return isAllowKeyWrite(v.e, key, realExecer, tx, index)
+}
+
+// IsAllowExec calls (*executor).isAllowExec (realExecer derived from the loaded driver).
+func (v *VerifEnv) IsAllowExec(key []byte, tx *types.Transaction, index int) bool {
+	return v.e.isAllowExec(key, tx, index)
+}
+
+// RealExecName calls (*executor).getRealExecName.
+func (v *VerifEnv) RealExecName(tx *types.Transaction, index int) []byte {
+	return v.e.getRealExecName(tx, index)
+}
+
+// CheckKV calls (*executor).checkKV.
+func (v *VerifEnv) CheckKV(memset []string, kvs []*types.KeyValue) error {
+	return v.e.checkKV(memset, kvs)
+}
+
+// VerifIsAllowLocalKey calls isAllowLocalKey.
+func VerifIsAllowLocalKey(cfg *types.Chain33Config, execer, key []byte) error {
+	return isAllowLocalKey(cfg, execer, key)
+}
+
+// VerifIsAllowLocalKey2 calls isAllowLocalKey2.
+func VerifIsAllowLocalKey2(cfg *types.Chain33Config, execer, key []byte) error {
+	return isAllowLocalKey2(cfg, execer, key)
+}
